@@ -15,9 +15,21 @@ def D(n):
     return list(range(-m, m + 1))
 
 
+def nibble_patterns(n):
+    """Values below 2^(n-1) whose hexadecimal digits run through ALL sixteen nibble values (table-driven digit
+    expansions), in both directions."""
+    if n < 20:
+        return set()
+    h = ("0123456789abcdef" * (n // 64 + 2))
+    out = set()
+    for s_ in (h, h[::-1], "c" * 80, "9e3779b97f4a7c15" * 6):
+        out.add(int(s_[: (n - 1) // 4], 16) % (2 ** (n - 1)))
+    return out
+
+
 def lattice(n):
     """Boundary lattice for larger bitlengths (explicit finite domain, enumerated completely)."""
-    pts = {0, 1, 2}
+    pts = {0, 1, 2} | (nibble_patterns(n) if n >= 64 else set())
     for k in (2 ** (n - 1) - 1, 2 ** (n - 1), 2 ** (n - 1) + 1, 2 ** n - 1, 2 ** n, 2 ** n + 1):
         pts.add(k)
     return sorted({-x for x in pts} | pts)
@@ -30,6 +42,7 @@ def wide_lattice(n, full=True):
     for k in (8, 16, 32, 64):
         if k < n:
             pts |= {2 ** k - 1, 2 ** k, 2 ** k + 5}
+    pts |= nibble_patterns(n)
     if full:
         pts |= {2, 3, 2 ** (n - 1), 2 ** (n - 1) + 1, 2 ** n + 1, sum(1 << i for i in range(1, n, 2))}
     return sorted({-x for x in pts} | pts)
@@ -289,6 +302,70 @@ def depth2_programs(inner_ops=None, outer_ops=None):
     return progs
 
 
+class Structured(list):
+    """Operand values with a STRUCTURE in the interior of an n-bit range (powers of two, all-ones, byte multiples,
+    alternating bits, small multipliers).  Used as `vals`: not the full product is enumerated but every structured value
+    against a companion set (itself, its negative, its neighbours, small numbers, the range boundaries)."""
+
+    def __init__(self, n):
+        pts = {3, 5, 6, 7, 10, 12, 13, 100, 255, 256, 257, 512, 768, 1000, 1024}
+        for k in range(1, n):
+            pts |= {2 ** k, 2 ** k - 1}
+        pts |= {sum(1 << i for i in range(0, n - 1, 2)), sum(1 << i for i in range(1, n - 1, 2)), 3 << (n - 3), 2 ** (n - 1) - 256}
+        pts = sorted(x for x in pts if 0 < x < 2 ** n)
+        super().__init__(sorted({-x for x in pts} | set(pts)))
+        self.n = n
+
+    def companions(self, v):
+        n = self.n
+        c = {v, -v, v + 1, v - 1, 0, 1, 2, 3, 7, 10, 12, 256, -1, -3, 2 ** (n - 1) - 1, -(2 ** (n - 1)), v // 2, 2 * v}
+        return sorted(c)
+
+
 def input_vectors(prog, vals):
+    if isinstance(vals, Structured):
+        return _structured_vectors(prog, vals)
     doms = [kind_domain(k, vals) for k in prog["kinds"]]
     return itertools.product(*doms)
+
+
+def _structured_vectors(prog, S):
+    kinds = prog["kinds"]
+    free = [i for i, k in enumerate(kinds) if k not in ("B", "A")]
+    fixed = {i: kind_domain(k, S) for i, k in enumerate(kinds) if k in ("B", "A")}
+    seen = set()
+    out = []
+
+    def emit(assign):
+        for combo in itertools.product(*[fixed[i] for i in sorted(fixed)]):
+            vec = [None] * len(kinds)
+            for i, v in zip(sorted(fixed), combo):
+                vec[i] = v
+            for i, v in assign.items():
+                vec[i] = v
+            t = tuple(vec)
+            if t not in seen:
+                seen.add(t)
+                out.append(t)
+    if not free:
+        emit({})
+    elif len(free) == 1:
+        for v in S:
+            emit({free[0]: v})
+    elif len(free) == 2:
+        a, b = free[0], free[1]
+        for v in S:
+            for w in S.companions(v):
+                emit({a: v, b: w})
+                emit({a: w, b: v})
+    else:
+        a, b, c = free[0], free[1], free[2]
+        for v in S:
+            for w in S.companions(v):
+                # (value, lower bound, upper bound)-like triples: structured bounds around small / structured values
+                for x, y, z in ((v, w, w + 1), (w, 0, v), (w, v, 2 * v), (w, -v, v)):
+                    asg = {a: x, b: y, c: z}
+                    for r in free[3:]:
+                        asg[r] = x
+                    emit(asg)
+    return out
